@@ -248,7 +248,26 @@ def run(ctx):
             if len(k[1]) == 6:
                 ctx.check(GW.one('cctz::detail::impl::n_sec') in reach, 'C04-funnel', '%s normalises through n_sec' % fname(k), f2,
                           'the six-field constructor does not normalise its arguments', construct='funnel:nsec:%s' % tag)
-    ctx.minimum('C04-funnel', 24)
+                # every argument reaches the normaliser as it was given, in its own position: the carry out of a field
+                # that the alignment later drops still has to arrive in the fields that are kept
+                from ..frontend import params_of as _params_of
+                ps6 = _params_of(f2)
+                calls6 = [x for x in walk(f2) if x.get('kind') == 'CallExpr' and callee(x) and callee(x)[0] == 'fn' and
+                          callee(x)[1].get('name') == 'n_sec']
+                if len(calls6) != 1 or len(call_args(calls6[0])) != 6 or len(ps6) != 6:
+                    ctx.unknown('C04-funnel', '%s passes its six arguments to n_sec' % fname(k), f2,
+                                'the six-field constructor does not call n_sec(y, m, d, hh, mm, ss) itself', construct='funnel:args:%s' % tag)
+                else:
+                    wrong = []
+                    for i_, (p6, a6) in enumerate(zip(ps6, call_args(calls6[0]))):
+                        a6p = peel(a6, explicit=True)
+                        if not (a6p.get('kind') == 'DeclRefExpr' and (a6p.get('referencedDecl') or {}).get('id') == p6['id']):
+                            wrong.append('%s <- %s' % (p6.get('name'), Keys(u2).key(a6)))
+                    ctx.check(not wrong, 'C04-funnel', '%s passes its six arguments to n_sec unchanged' % fname(k), calls6[0],
+                              'the normaliser is not given the constructor arguments as they are (%s): an out-of-range value of that '
+                              'field no longer carries into the fields this alignment keeps' % '; '.join(wrong),
+                              construct='funnel:args:%s' % tag)
+    ctx.minimum('C04-funnel', 30)
     ctx.minimum('C04-tags', 12)
 
     # ---- C04-months
